@@ -100,6 +100,14 @@ impl WorkerMonitor {
     pub fn make_request(&self, goal: WorkerGoal) {
         let mut guard = self.sync.lock().unwrap();
         let newly_requested = guard.goals.set_request(goal);
+        #[cfg(feature = "mmtk_verif")]
+        crate::verif::emit(
+            crate::verif::EV_REQUEST,
+            goal as u64,
+            newly_requested as u64,
+            0,
+            0,
+        );
         if newly_requested {
             self.notify_work_available(false);
         }
@@ -136,6 +144,14 @@ impl WorkerMonitor {
 
         // Park this worker
         let all_parked = sync.parker.inc_parked_workers();
+        #[cfg(feature = "mmtk_verif")]
+        crate::verif::emit(
+            crate::verif::EV_PARK,
+            ordinal as u64,
+            sync.parker.parked_workers as u64,
+            sync.parker.worker_count as u64,
+            0,
+        );
         trace!(
             "Worker {} parked.  parked/total: {}/{}.  All parked: {}",
             ordinal,
@@ -149,6 +165,18 @@ impl WorkerMonitor {
         if all_parked {
             trace!("Worker {} is the last worker parked.", ordinal);
             let result = on_last_parked(&mut sync.goals);
+            #[cfg(feature = "mmtk_verif")]
+            crate::verif::emit(
+                crate::verif::EV_LAST_PARKED,
+                ordinal as u64,
+                match result {
+                    LastParkedResult::ParkSelf => 0,
+                    LastParkedResult::WakeSelf => 1,
+                    LastParkedResult::WakeAll => 2,
+                },
+                sync.parker.parked_workers as u64,
+                0,
+            );
             match result {
                 LastParkedResult::ParkSelf => {
                     should_wait = true;
@@ -223,6 +251,14 @@ impl WorkerMonitor {
 
         // Unpark this worker.
         sync.parker.dec_parked_workers();
+        #[cfg(feature = "mmtk_verif")]
+        crate::verif::emit(
+            crate::verif::EV_UNPARK,
+            ordinal as u64,
+            sync.parker.parked_workers as u64,
+            0,
+            0,
+        );
         trace!(
             "Worker {} unparked.  parked/total: {}/{}.",
             ordinal,
@@ -235,6 +271,8 @@ impl WorkerMonitor {
             sync.goals.current(),
             Some(WorkerGoal::Shutdown | WorkerGoal::StopForFork)
         ) {
+            #[cfg(feature = "mmtk_verif")]
+            crate::verif::emit(crate::verif::EV_EXIT_DECISION, ordinal as u64, 0, 0, 0);
             return Err(WorkerShouldExit);
         }
 
